@@ -131,7 +131,7 @@ const LABELS_VISIBLE: [&str; 3] = ["public", "", "internal"]; // "" = unlabeled 
 /// ceiling of at most "sensitive".
 fn gen_script(rng: &mut Rng, size: usize) -> Script {
     let mut s = Script::default();
-    let mut hid = |s: &mut Script, a: Value, b: Value| -> PVal {
+    let hid = |s: &mut Script, a: Value, b: Value| -> PVal {
         s.hidden_vals[0].push(a);
         s.hidden_vals[1].push(b);
         PVal::Hidden(s.hidden_vals[0].len() - 1)
@@ -757,12 +757,44 @@ fn mask(v: &Value) -> Value {
         Value::String(s) => {
             let b = s.as_bytes();
             let ts = b.len() >= 20 && b[4] == b'-' && b[7] == b'-' && b[10] == b'T' && b[13] == b':' && b[0].is_ascii_digit() && (s.ends_with('Z') || s.contains('+'));
-            if ts { json!("<instant>") } else { v.clone() }
+            if ts {
+                json!("<instant>")
+            } else if s.starts_with("sha3-256:") {
+                // digests over content that embeds instants (capsule integrity block)
+                json!("<digest>")
+            } else {
+                v.clone()
+            }
         }
         Value::Array(a) => Value::Array(a.iter().map(mask).collect()),
         Value::Object(m) => Value::Object(m.iter().map(|(k, x)| (k.clone(), mask(x))).collect()),
         _ => v.clone(),
     }
+}
+
+/// Replaces the values under the given keys (at any depth).
+fn mask_keys(v: &Value, keys: &[&str]) -> Value {
+    match v {
+        Value::Array(a) => Value::Array(a.iter().map(|x| mask_keys(x, keys)).collect()),
+        Value::Object(m) => Value::Object(
+            m.iter().map(|(k, x)| (k.clone(), if keys.contains(&k.as_str()) { json!("<masked>") } else { mask_keys(x, keys) })).collect(),
+        ),
+        _ => v.clone(),
+    }
+}
+
+/// Space-level coordinates: they count commits, including commits that only touched elements the
+/// caller may not read.
+const SEQ_KEYS: [&str; 9] = ["snapshot_seq", "snapshot_token", "seq", "space_seq", "current_space_seq", "target_seq", "tx_id", "index_seq", "as_of_seq"];
+
+/// The ids of a SEARCH answer's hits, sorted.
+fn hit_ids(v: &Value) -> Vec<String> {
+    let mut ids: Vec<String> = v["results"][0]["result"]["hits"]
+        .as_array()
+        .map(|h| h.iter().filter_map(|x| x["id"].as_str().map(str::to_string)).collect())
+        .unwrap_or_default();
+    ids.sort();
+    ids
 }
 
 fn replace_str(v: &Value, from: &str, to: &str) -> Value {
@@ -828,6 +860,23 @@ fn first_diff(a: &Value, b: &Value, path: &str) -> Option<String> {
     }
 }
 
+/// Reports a violation, at most twice per signature and process: a root cause that shows in
+/// every configuration must not stop the exploration of everything else (vcore stops a section
+/// after a handful of violations). Further occurrences are counted.
+fn report(st: &mut Stats, sig: String, detail: Value) {
+    static SEEN: std::sync::Mutex<BTreeMap<String, u32>> = std::sync::Mutex::new(BTreeMap::new());
+    let n = {
+        let mut g = SEEN.lock().unwrap();
+        let e = g.entry(sig.clone()).or_insert(0);
+        *e += 1;
+        *e
+    };
+    st.count(&format!("violations_seen[{sig}]"));
+    if n <= 2 {
+        st.violation(sig, detail);
+    }
+}
+
 // ---------------------------------------------------------------------------------------------
 // monitor 1: two-run non-interference
 
@@ -836,8 +885,8 @@ fn ni_case(case: u64, rng: &mut Rng, st: &mut Stats, thorough: bool) {
     let cfg = gen_cfg(rng);
     let bat = battery(rng, &script);
     let res: Result<(), String> = vcore::run::block_on(async {
-        let (w1, _, _) = build(&format!("c19_{case}_a"), &script, &cfg, 0, false).await?;
-        let (w2, _, _) = build(&format!("c19_{case}_b"), &script, &cfg, 1, true).await?;
+        let (w1, _, _) = build(&format!("c19_{case}"), &script, &cfg, 0, false).await?;
+        let (w2, _, _) = build(&format!("c19_{case}"), &script, &cfg, 1, true).await?;
         let mut w1b: Option<World> = None;
         let (p1, p2) = (session(&w1.nx, P), session(&w2.nx, P));
         let (o1, o2) = (w1.nx.system_session(), w2.nx.system_session());
@@ -861,7 +910,7 @@ fn ni_case(case: u64, rng: &mut Rng, st: &mut Stats, thorough: bool) {
             if a1 != a2 {
                 // is it noise? build S1 once more and look at the same query
                 if w1b.is_none() {
-                    w1b = Some(build(&format!("c19_{case}_c"), &script, &cfg, 0, false).await?.0);
+                    w1b = Some(build(&format!("c19_{case}"), &script, &cfg, 0, false).await?.0);
                 }
                 let wb = w1b.as_ref().unwrap();
                 let a1b = mask(&observe(&session(&wb.nx, P), wb, &script, 0, q).await);
@@ -870,11 +919,25 @@ fn ni_case(case: u64, rng: &mut Rng, st: &mut Stats, thorough: bool) {
                     st.sample(|| json!({"monitor": "ni", "unmasked_noise": first_diff(&a1, &a1b, "$"), "query": q.cmd}));
                     continue;
                 }
-                let sig = if q.family == "sequence" { "C19/ni/space_sequence_reveals_hidden_commits".to_string() } else { format!("C19/ni/{}", q.family) };
-                st.violation(
+                let sig = if cfg.path == "policy_ceiling" {
+                    // one root cause for every family: the ceiling of a policy allow statement
+                    "C19/ni/policy_allow_max_classification_not_enforced".to_string()
+                } else if mask_keys(&a1, &SEQ_KEYS) == mask_keys(&a2, &SEQ_KEYS) {
+                    // the only difference is a Space-level sequence number / coordinate
+                    "C19/ni/space_sequence_reveals_hidden_commits".to_string()
+                } else if q.family == "search" && (hit_ids(&a1) == hit_ids(&a2) || q.cmd.contains("LIMIT")) {
+                    // the same visible hits with different relevance scores / in a different order
+                    // (or a different top-k): the ranking statistics include hidden documents
+                    "C19/ni/search_ranking_depends_on_hidden_documents".to_string()
+                } else {
+                    format!("C19/ni/{}", q.family)
+                };
+                report(
+                    st,
                     sig,
                     json!({"case": case, "config": format!("{cfg:?}"), "query": q.cmd, "params_s1": w1.params(&script, 0, &q.params),
                         "first_difference(S1|S2)": first_diff(&a1, &a2, "$"),
+                        "first_difference_ignoring_scores_and_sequences": first_diff(&mask_keys(&mask_keys(&a1, &SEQ_KEYS), &["score"]), &mask_keys(&mask_keys(&a2, &SEQ_KEYS), &["score"]), "$"),
                         "hidden_ids": script.hidden.iter().map(|s| w1.id(s)).collect::<Vec<_>>(),
                         "p_on_s1": short(&a1, 1500), "p_on_s2": short(&a2, 1500)}),
                 );
@@ -895,7 +958,7 @@ fn ni_case(case: u64, rng: &mut Rng, st: &mut Stats, thorough: bool) {
         }
         if w1b.is_none() && case % 4 == 0 {
             // establish the mask on a share of the configurations even when nothing differed
-            let wb = build(&format!("c19_{case}_c"), &script, &cfg, 0, false).await?.0;
+            let wb = build(&format!("c19_{case}"), &script, &cfg, 0, false).await?.0;
             let sb = session(&wb.nx, P);
             let ob = wb.nx.system_session();
             for q in &bat {
@@ -918,6 +981,286 @@ fn ni_case(case: u64, rng: &mut Rng, st: &mut Stats, thorough: bool) {
     }
 }
 
+// ---------------------------------------------------------------------------------------------
+// monitor 2: authority timeline and delegation
+
+/// The part of the battery whose answers do not name the caller's own authorities.
+fn neutral(bat: &[Q]) -> Vec<&Q> {
+    bat.iter().filter(|q| !q.cmd.starts_with("DESCRIBE ACCESS") && !q.cmd.starts_with("DESCRIBE EXECUTION")).collect()
+}
+
+const FRESH: &str = "kip:principal:fresh";
+
+fn timeline_case(case: u64, rng: &mut Rng, st: &mut Stats) {
+    let script = gen_script(rng, 4);
+    let mut cfg = gen_cfg(rng);
+    let bat = battery(rng, &script);
+    let event = *rng.pick(&["revoke", "revoke", "suspend", "revoke_principal", "deny", "expiry", "leave_group", "policy_withdrawn", "revoke_delegation"]);
+    // make the event applicable
+    match event {
+        "leave_group" => cfg.path = "group",
+        "policy_withdrawn" => cfg.path = *rng.pick(&["policy_scope", "policy_ceiling"]),
+        "revoke_delegation" => cfg.path = *rng.pick(&["delegation", "chain"]),
+        "revoke" | "expiry" => {
+            if cfg.path.starts_with("policy") {
+                cfg.path = *rng.pick(&["grant", "group", "delegation", "chain"]);
+            }
+        }
+        _ => {}
+    }
+    let res: Result<(), String> = vcore::run::block_on(async {
+        let nx = fresh_nexus(&format!("c19_tl_{case}")).await?;
+        let gov = nx.governance();
+        let mut policy = vec![];
+        let mut w = World { nx: nx.clone(), sym: BTreeMap::new() };
+        run_steps(&mut w, &script, &script.steps, 0).await?;
+        // p's authority; for "expiry" the root grant lapses a few milliseconds from now
+        let inst = if event == "expiry" {
+            principal(&nx, P).await?;
+            let until = (chrono_now_plus_ms(60)).to_string();
+            let mut g = GrantDraft {
+                space_id: DEFAULT_SPACE.into(),
+                grantee_principal: P.into(),
+                actions: cfg.actions.clone(),
+                scope: cfg.scope(),
+                constraints: cfg.constraints(),
+                ..Default::default()
+            };
+            g.conditions = AuthorityConditions { valid_until: until, ..Default::default() };
+            let id = gov.create_grant(g, SYSTEM_PRINCIPAL).await.map_err(gerr("create_grant"))?._id;
+            Installed { grants: vec![id], ..Default::default() }
+        } else {
+            install(&nx, &cfg, P, "", &mut policy).await?
+        };
+        if !policy.is_empty() {
+            set_policy(&nx, policy.clone()).await?;
+        }
+        let p = session(&nx, P);
+        let before: Vec<Value> = {
+            let mut v = vec![];
+            for q in neutral(&bat) {
+                v.push(mask(&observe(&p, &w, &script, 0, q).await));
+            }
+            v
+        };
+        let allowed_before = before.iter().filter(|a| succeeded(a)).count();
+        if event == "expiry" && allowed_before == 0 {
+            // the machine was too slow to ask before the grant lapsed: nothing to compare
+            st.count("timeline_expiry_lapsed_before_first_request");
+        }
+        // --- the event, through the control plane
+        match event {
+            "revoke" => gov.revoke_grant(inst.grants[0], SYSTEM_PRINCIPAL).await.map_err(gerr("revoke_grant"))?,
+            "revoke_delegation" => gov.revoke_delegation(*inst.delegations.last().unwrap(), SYSTEM_PRINCIPAL).await.map_err(gerr("revoke_delegation"))?,
+            "suspend" => {
+                gov.set_principal_status(P, status::SUSPENDED, SYSTEM_PRINCIPAL).await.map_err(gerr("suspend"))?;
+            }
+            "revoke_principal" => {
+                gov.set_principal_status(P, status::REVOKED, SYSTEM_PRINCIPAL).await.map_err(gerr("revoke principal"))?;
+            }
+            "deny" => {
+                let mut st2 = policy.clone();
+                st2.push(PolicyStatement { effect: "deny".into(), principals: vec![P.into()], ..Default::default() });
+                set_policy(&nx, st2).await?;
+            }
+            "leave_group" => {
+                gov.put_group(GroupDraft { group_id: GROUP.into(), name: "readers".into(), description: "verif".into(), members: vec![] }, SYSTEM_PRINCIPAL)
+                    .await
+                    .map_err(gerr("put_group"))?;
+            }
+            "policy_withdrawn" => {
+                let st2: Vec<PolicyStatement> = policy.iter().filter(|s| !(s.effect == "allow" && s.principals == vec![P.to_string()])).cloned().collect();
+                set_policy(&nx, st2).await?;
+            }
+            _ => {
+                // expiry: wait until the instant has certainly passed (millisecond resolution)
+                tokio::time::sleep(std::time::Duration::from_millis(90)).await;
+            }
+        }
+        st.count(&format!("timeline_event_{event}"));
+        // --- what p still holds: only the narrow second grant (when there is one and p is alive)
+        let keeps_second = cfg.second_grant && event != "expiry" && !matches!(event, "suspend" | "revoke_principal" | "deny");
+        principal(&nx, FRESH).await?;
+        if keeps_second {
+            gov.create_grant(
+                GrantDraft {
+                    space_id: DEFAULT_SPACE.into(),
+                    grantee_principal: FRESH.into(),
+                    actions: vec!["read".into(), "search".into()],
+                    scope: AuthorityScope { kinds: vec!["concept".into()], ..Default::default() },
+                    constraints: AuthorityConstraints { fields: vec!["name".into()], max_classification: "public".into(), ..Default::default() },
+                    ..Default::default()
+                },
+                SYSTEM_PRINCIPAL,
+            )
+            .await
+            .map_err(gerr("create_grant fresh"))?;
+            st.count("timeline_narrowed_rather_than_removed");
+        }
+        let f = session(&nx, FRESH);
+        let mut still_allowed = 0;
+        for (i, q) in neutral(&bat).into_iter().enumerate() {
+            // p's NEXT request after the event
+            let a = replace_str(&mask(&observe(&p, &w, &script, 0, q).await), P, "<caller>");
+            let b = replace_str(&mask(&observe(&f, &w, &script, 0, q).await), FRESH, "<caller>");
+            st.eval();
+            st.count("timeline_next_request_checks");
+            if succeeded(&a) {
+                still_allowed += 1;
+            }
+            if succeeded(&before[i]) && !succeeded(&a) {
+                st.count("timeline_allowed_before_denied_after");
+            }
+            if a != b {
+                report(
+                    st,
+                    format!("C19/timeline/{event}/next_request_differs_from_fresh_principal"),
+                    json!({"case": case, "event": event, "config": format!("{cfg:?}"), "query": q.cmd, "params": w.params(&script, 0, &q.params),
+                        "first_difference(p|fresh)": first_diff(&a, &b, "$"), "p": short(&a, 1200), "fresh": short(&b, 1200)}),
+                );
+            }
+        }
+        if !keeps_second && still_allowed > 0 {
+            // p holds nothing any more: the only answers left are those that need no permission
+            st.count("timeline_answers_needing_no_permission");
+        }
+        st.sample(|| json!({"monitor": "timeline", "case": case, "event": event, "path": cfg.path, "allowed_before": allowed_before, "allowed_after": still_allowed}));
+        Ok(())
+    });
+    if let Err(e) = res {
+        st.inconclusive(format!("C19 timeline case {case} ({event}): {e}"));
+    }
+}
+
+/// RFC 3339 instant `ms` milliseconds from now, in the engine's canonical form.
+fn chrono_now_plus_ms(ms: u64) -> String {
+    let t = std::time::SystemTime::now() + std::time::Duration::from_millis(ms);
+    let d = t.duration_since(std::time::UNIX_EPOCH).unwrap();
+    let secs = d.as_secs() as i64;
+    let millis = d.subsec_millis();
+    // civil from days (Howard Hinnant)
+    let days = secs.div_euclid(86400);
+    let rem = secs.rem_euclid(86400);
+    let z = days + 719468;
+    let era = z.div_euclid(146097);
+    let doe = z.rem_euclid(146097);
+    let yoe = (doe - doe / 1460 + doe / 36524 - doe / 146096) / 365;
+    let y = yoe + era * 400;
+    let doy = doe - (365 * yoe + yoe / 4 - yoe / 100);
+    let mp = (5 * doy + 2) / 153;
+    let dd = doy - (153 * mp + 2) / 5 + 1;
+    let m = if mp < 10 { mp + 3 } else { mp - 9 };
+    let y = if m <= 2 { y + 1 } else { y };
+    format!("{:04}-{:02}-{:02}T{:02}:{:02}:{:02}.{:03}Z", y, m, dd, rem / 3600, (rem % 3600) / 60, rem % 60, millis)
+}
+
+/// Element ids mentioned anywhere in an answer.
+fn ids_in(v: &Value, out: &mut BTreeSet<String>) {
+    match v {
+        Value::String(s) => {
+            if let Some((k, n)) = s.split_once('-') {
+                if matches!(k, "C" | "P" | "A" | "E" | "X") && !n.is_empty() && n.bytes().all(|b| b.is_ascii_digit()) {
+                    out.insert(s.clone());
+                }
+            }
+        }
+        Value::Array(a) => a.iter().for_each(|x| ids_in(x, out)),
+        Value::Object(m) => m.values().for_each(|x| ids_in(x, out)),
+        _ => {}
+    }
+}
+
+/// "A delegation never confers more than its delegator currently holds."
+fn delegation_case(case: u64, rng: &mut Rng, st: &mut Stats) {
+    let script = gen_script(rng, 4);
+    let mut cfg = gen_cfg(rng);
+    cfg.path = if rng.bool() { "delegation" } else { "chain" };
+    cfg.second_grant = false;
+    cfg.deny_label = None;
+    let bat = battery(rng, &script);
+    let res: Result<(), String> = vcore::run::block_on(async {
+        let nx = fresh_nexus(&format!("c19_dg_{case}")).await?;
+        let gov = nx.governance();
+        let mut w = World { nx: nx.clone(), sym: BTreeMap::new() };
+        run_steps(&mut w, &script, &script.steps, 0).await?;
+        let mut none = vec![];
+        let inst = install(&nx, &cfg, P, "", &mut none).await?;
+        let (delegate, delegator) = (session(&nx, P), session(&nx, LEAD));
+        let phases = ["initial", *rng.pick(&["narrowed_ceiling", "narrowed_kinds", "narrowed_actions", "delegator_suspended"]), "revoked"];
+        for phase in phases {
+            match phase {
+                "initial" => {}
+                "revoked" => {
+                    // whatever the delegator holds now goes away
+                    for g in gov.grants_for(DEFAULT_SPACE, LEAD, &[]).await.map_err(gerr("grants_for"))? {
+                        gov.revoke_grant(g._id, SYSTEM_PRINCIPAL).await.map_err(gerr("revoke_grant"))?;
+                    }
+                }
+                "delegator_suspended" => {
+                    gov.set_principal_status(LEAD, status::SUSPENDED, SYSTEM_PRINCIPAL).await.map_err(gerr("suspend"))?;
+                }
+                narrowed => {
+                    gov.revoke_grant(inst.grants[0], SYSTEM_PRINCIPAL).await.map_err(gerr("revoke_grant"))?;
+                    let mut c2 = cfg.clone();
+                    match narrowed {
+                        "narrowed_ceiling" => c2.ceiling = "public",
+                        "narrowed_kinds" => c2.kinds = vec!["evidence".into()],
+                        _ => c2.actions = vec!["discover".into()],
+                    }
+                    gov.create_grant(
+                        GrantDraft {
+                            space_id: DEFAULT_SPACE.into(),
+                            grantee_principal: LEAD.into(),
+                            actions: c2.actions.clone(),
+                            scope: c2.scope(),
+                            constraints: c2.constraints(),
+                            delegation_allowed: true,
+                            ..Default::default()
+                        },
+                        SYSTEM_PRINCIPAL,
+                    )
+                    .await
+                    .map_err(gerr("create_grant narrowed"))?;
+                }
+            }
+            st.count(&format!("delegation_phase_{phase}"));
+            for q in &bat {
+                let a_lead = mask(&observe(&delegator, &w, &script, 0, q).await);
+                let a_del = mask(&observe(&delegate, &w, &script, 0, q).await);
+                st.eval();
+                st.count("delegation_checks");
+                let ctx = |what: &str| json!({"case": case, "phase": phase, "what": what, "config": format!("{cfg:?}"), "query": q.cmd,
+                    "params": w.params(&script, 0, &q.params), "delegator": short(&a_lead, 1000), "delegate": short(&a_del, 1000)});
+                if is_denied(&a_lead) {
+                    st.count("delegation_delegator_denied");
+                    if !is_denied(&a_del) && succeeded(&a_del) {
+                        report(st, format!("C19/delegation/{phase}/delegate_allowed_where_delegator_is_denied"), ctx("denied to the delegator, answered to the delegate"));
+                    }
+                }
+                if succeeded(&a_del) {
+                    st.count("delegation_delegate_allowed");
+                }
+                // the delegate never sees an element the delegator cannot see (monotone queries only)
+                let monotone = matches!(q.family, "element" | "element_by_id" | "tuple" | "path" | "history" | "changes") && !q.cmd.contains("LIMIT") && cfg.max_results.is_none();
+                if monotone && succeeded(&a_del) && succeeded(&a_lead) {
+                    let (mut x, mut y) = (BTreeSet::new(), BTreeSet::new());
+                    ids_in(&a_del["results"][0]["result"], &mut x);
+                    ids_in(&a_lead["results"][0]["result"], &mut y);
+                    st.count("delegation_subset_checks");
+                    let extra: Vec<&String> = x.difference(&y).collect();
+                    if !extra.is_empty() {
+                        report(st, format!("C19/delegation/{phase}/delegate_sees_more_than_delegator"), json!({"extra_ids": extra, "context": ctx("ids visible to the delegate only")}));
+                    }
+                }
+            }
+        }
+        Ok(())
+    });
+    if let Err(e) = res {
+        st.inconclusive(format!("C19 delegation case {case}: {e}"));
+    }
+}
+
 fn main() {
     let mut run = Run::from_args(
         "C19",
@@ -928,6 +1271,12 @@ fn main() {
     let thorough = t == vcore::Tier::Thorough;
     if run.wants("ni") {
         run.parallel("ni", t.pick(48, 2000), 0.6, |c, rng, st| ni_case(c, rng, st, thorough));
+    }
+    if run.wants("timeline") {
+        run.parallel("timeline", t.pick(48, 1500), 0.4, |c, rng, st| timeline_case(c, rng, st));
+    }
+    if run.wants("delegation") {
+        run.parallel("delegation", t.pick(24, 800), 0.5, |c, rng, st| delegation_case(c, rng, st));
     }
     run.finish();
 }
